@@ -12,9 +12,16 @@ import (
 
 // blockingCase: with ACKs withheld exactly n Sends return, the next one is
 // durably blocked, and one ACK lets exactly one more return.
-func blockingCase(t *testing.T, r *Recorder, n uint8) {
-	sc := &GbnScenario{Name: fmt.Sprintf("blocking-n%d", n), N: n, Latency: time.Millisecond,
+func blockingCase(t *testing.T, r *Recorder, n uint8) { blockingCaseHS(t, r, n, 0) }
+
+// blockingCaseHS: synackDelay > 0 delays the client's SYNACK beyond the server's handshake timeout,
+// so that the server completes through its "handshake restarted" path.
+func blockingCaseHS(t *testing.T, r *Recorder, n uint8, synackDelay time.Duration) {
+	sc := &GbnScenario{Name: fmt.Sprintf("blocking-n%d-synack+%v", n, synackDelay), N: n, Latency: time.Millisecond,
 		Static: 600 * time.Second}
+	if synackDelay > 0 {
+		sc.Faults[0] = []Fault{{}, {Delay: synackDelay}}
+	}
 	var c1, c2, c3 int64
 	var st [2]gbn.VConnState
 	res := RunGbnBody(t, sc, func(sim *Sim, conns [2]*gbn.GoBackNConn, res *GbnResult) {
@@ -71,6 +78,13 @@ func blockingCase(t *testing.T, r *Recorder, n uint8) {
 		}
 	}
 	switch {
+	case synackDelay > 0:
+		// the packet that completes a restarted server handshake (the late SYNACK or the first DATA
+		// packet) is consumed by the handshake; with the 600 s resend timeout of this scenario the
+		// Send counts below would measure that, not the window. Only the adopted window is judged.
+		if c1 > int64(n) {
+			r.Violate("C09/window-exceeded", fmt.Sprintf("n=%d (late SYNACK): %d Sends returned with no ACK delivered", n, c1), sc)
+		}
 	case c1 > int64(n):
 		r.Violate("C09/window-exceeded", fmt.Sprintf("n=%d: %d Sends returned with no ACK delivered", n, c1), sc)
 	case c1 < int64(n):
@@ -192,6 +206,10 @@ func TestC09(t *testing.T) {
 	}
 	for _, n := range []int{1, 2, 3, 5, 20, 127, 254} {
 		pingWindowCase(t, r, uint8(n))
+	}
+	// the window both ends use after a handshake that the server had to restart (late SYNACK)
+	for _, n := range []int{1, 2, 3, 19, 20, 21, 100, 254} {
+		blockingCaseHS(t, r, uint8(n), 1500*time.Millisecond)
 	}
 	// window discipline under faults: the C01 scenario family, replayed
 	// through the model (a new packet must find room in the model's window)
